@@ -67,7 +67,32 @@ def _xyz_of(o, ellname, prj):
     return closed_form(lat, lon, o.ell_ht or 0.0, a, invf)
 
 
-def _step(o, step, ellname, prj):
+def _call(method, form, ellname, prj, ell, proj=None, T=None, arg=None):
+    """Call a conversion method in the call form of the case: positional, keyword, or with the documented defaults left out
+    (GRS80, UTM, DECAngle) where they are what the case asks for."""
+    kw = {"ellipsoid": ell}
+    if proj is not None:
+        kw["projection"] = proj
+    if T is not None:
+        kw["notation"] = T
+    if form == "keyword":
+        return method(**kw)
+    if form == "defaults":
+        if ellname == "grs80":
+            kw.pop("ellipsoid")
+        if proj is not None and prj == "utm":
+            kw.pop("projection")
+        if T is not None and arg == "dec":
+            kw.pop("notation")
+        return method(**kw)
+    return method(*[v for v in (ell, proj, T) if v is not None])
+
+
+def _same_projection(p, q):
+    return type(p) is type(q) and vars(p) == vars(q)
+
+
+def _step(o, step, ellname, prj, form="positional"):
     """Apply one conversion and check it against the functional API. Returns the new object."""
     cv = repo.mod("geodepy.convert")
     co = repo.mod("geodepy.coord")
@@ -79,7 +104,7 @@ def _step(o, step, ellname, prj):
         warnings.simplefilter("ignore", UserWarning)
         if k == "CoordGeo":
             if op == "cart":
-                r = o.cart(ell)
+                r = _call(o.cart, form, ellname, prj, ell)
                 want = cv.llh2xyz(o.lat, o.lon, o.ell_ht if o.ell_ht is not None else 0, ell)
                 if (r.xaxis, r.yaxis, r.zaxis) != tuple(float(v) for v in want):
                     raise Fail("CoordGeo.cart: X, Y, Z are not llh2xyz of the same latitude, longitude, height and ellipsoid",
@@ -94,12 +119,12 @@ def _step(o, step, ellname, prj):
                                bucket="geo.cart nval")
                 return r
             if op == "tm":
-                r = o.tm(ell, proj)
+                r = _call(o.tm, form, ellname, prj, ell, proj)
                 want = cv.geo2grid(o.lat, o.lon, 0, ell, proj)
                 if (r.zone, r.east, r.north, r.hemi_north) != (want[1], want[2], want[3], want[0] == "North"):
                     raise Fail("CoordGeo.tm: zone / easting / northing / hemisphere are not geo2grid of the same ellipsoid and projection",
                                expected=want[:4], observed=(r.zone, r.east, r.north, r.hemi_north), bucket="geo.tm grid")
-                if r.projection is not proj:
+                if not _same_projection(r.projection, proj):
                     raise Fail("CoordGeo.tm: the result does not carry the requested projection", bucket="geo.tm projection")
                 if (r.ell_ht, r.orth_ht) != (o.ell_ht, o.orth_ht):
                     raise Fail("CoordGeo.tm: heights are not preserved", expected=(o.ell_ht, o.orth_ht), observed=(r.ell_ht, r.orth_ht),
@@ -125,7 +150,7 @@ def _step(o, step, ellname, prj):
         if k == "CoordCart":
             if op in ("geo", "notation"):
                 T = _ntype(arg)
-                r = o.geo(ell, T)
+                r = _call(o.geo, form, ellname, prj, ell, None, T, arg)
                 lat, lon, h = cv.xyz2llh(o.xaxis, o.yaxis, o.zaxis, ell)
                 if not (_same_angle(r.lat, _from_dec(arg, lat)) and _same_angle(r.lon, _from_dec(arg, lon))):
                     raise Fail("CoordCart.geo: latitude / longitude are not xyz2llh of the same ellipsoid in the requested notation",
@@ -142,9 +167,11 @@ def _step(o, step, ellname, prj):
                                bucket="cart.geo orth")
                 return r
             if op == "tm":
-                r = o.tm(ell, proj)
+                r = _call(o.tm, form, ellname, prj, ell, proj)
                 lat, lon, h = cv.xyz2llh(o.xaxis, o.yaxis, o.zaxis, ell)
                 want = cv.geo2grid(lat, lon, 0, ell, proj)
+                if not _same_projection(r.projection, proj):
+                    raise Fail("CoordCart.tm: the result does not carry the requested projection", bucket="cart.tm projection")
                 if (r.zone, r.east, r.north, r.hemi_north) != (want[1], want[2], want[3], want[0] == "North"):
                     raise Fail("CoordCart.tm: grid coordinates are not geo2grid(xyz2llh(...)) of the same ellipsoid and projection",
                                expected=want[:4], observed=(r.zone, r.east, r.north, r.hemi_north), bucket="cart.tm grid")
@@ -156,7 +183,7 @@ def _step(o, step, ellname, prj):
             hemi = "north" if o.hemi_north else "south"
             if op in ("geo", "notation"):
                 T = _ntype(arg)
-                r = o.geo(ell, T)
+                r = _call(o.geo, form, ellname, prj, ell, None, T, arg)
                 lat, lon = cv.grid2geo(o.zone, o.east, o.north, hemi, ell, o.projection)[:2]
                 if not (_same_angle(r.lat, _from_dec(arg, lat)) and _same_angle(r.lon, _from_dec(arg, lon))):
                     raise Fail("CoordTM.geo: latitude / longitude are not grid2geo of the same ellipsoid and projection",
@@ -167,7 +194,7 @@ def _step(o, step, ellname, prj):
                                bucket="tm.geo heights")
                 return r
             if op == "cart":
-                r = o.cart(ell)
+                r = _call(o.cart, form, ellname, prj, ell)
                 lat, lon = cv.grid2geo(o.zone, o.east, o.north, hemi, ell, o.projection)[:2]
                 want = cv.llh2xyz(lat, lon, o.ell_ht if o.ell_ht is not None else 0, ell)
                 if (r.xaxis, r.yaxis, r.zaxis) != tuple(float(v) for v in want):
@@ -191,7 +218,29 @@ def check_chain(case):
     co = repo.mod("geodepy.coord")
     ellname, prj = case["ell"], case["prj"]
     lat, lon = case["lat"], case["lon"]
-    start = co.CoordGeo(_from_dec(case["notation"], lat), _from_dec(case["notation"], lon), case["h_ell"], case["h_orth"])
+    la0, lo0 = _from_dec(case["notation"], lat), _from_dec(case["notation"], lon)
+    start = co.CoordGeo(la0, lo0, case["h_ell"], case["h_orth"])
+    if (start.ell_ht, start.orth_ht) != (case["h_ell"], case["h_orth"]) or not (_same_angle(start.lat, la0) and _same_angle(start.lon, lo0)):
+        raise Fail("CoordGeo does not hold the latitude, longitude and heights it was given",
+                   expected=(repr(la0), repr(lo0), case["h_ell"], case["h_orth"]),
+                   observed=(repr(start.lat), repr(start.lon), start.ell_ht, start.orth_ht), bucket="geo ctor")
+    if case["start"] == "tm":
+        # a projected coordinate built by the user (the defaults - southern hemisphere, UTM - left out where they apply)
+        cv = repo.mod("geodepy.convert")
+        proj = S.make_projection(prj)
+        with warnings.catch_warnings():
+            warnings.simplefilter("ignore", UserWarning)
+            g = cv.geo2grid(lat, lon, 0, S.make_ellipsoid(ellname), proj)
+        kw = {}
+        if g[0] == "North" or case.get("form") != "defaults":
+            kw["hemi_north"] = (g[0] == "North")
+        if prj != "utm" or case.get("form") != "defaults":
+            kw["projection"] = proj
+        start = co.CoordTM(g[1], g[2], g[3], case["h_ell"], case["h_orth"], **kw)
+        if (start.zone, start.east, start.north, start.ell_ht, start.orth_ht, start.hemi_north) != \
+                (g[1], g[2], g[3], case["h_ell"], case["h_orth"], g[0] == "North") or not _same_projection(start.projection, proj):
+            raise Fail("CoordTM does not hold the zone, coordinates, heights, hemisphere and projection it was given",
+                       expected=(g[1], g[2], g[3], case["h_ell"], case["h_orth"], g[0]), observed=repr(start), bucket="tm ctor")
     if case["start"] == "cart":
         a, invf = S.ellipsoid_params(ellname)
         x, y, z = closed_form(lat, lon, case["h_ell"] or 0.0, a, invf)
@@ -203,7 +252,7 @@ def check_chain(case):
     kinds = {_kind(o)}
     x0 = _xyz_of(start, ellname, prj)
     for step in case["chain"]:
-        r = _step(o, step, ellname, prj)
+        r = _step(o, step, ellname, prj, case.get("form", "positional"))
         if r is None:
             continue
         o = r
@@ -237,10 +286,11 @@ def chains(draw):
         ell = draw(st.sampled_from(["grs80", "grs80", "ans"]))
         lat = draw(st.one_of(S.floats(-79.9, 83.9), S.floats(-60.0, -5.0), st.sampled_from([0.0, -37.8, 45.0])))
         lon = draw(st.one_of(S.floats(-179.99, 179.99), st.sampled_from([0.0, 144.96, -0.5])))
-    start = draw(st.sampled_from(["geo", "geo", "cart"]))
+    start = draw(st.sampled_from(["geo", "geo", "cart", "tm"]))
     h_ell, h_orth, nval = draw(h_s), draw(h_s), draw(h_s)
     return {"lat": lat, "lon": lon, "ell": ell, "prj": prj, "start": start, "notation": draw(st.sampled_from(NOTATIONS)),
-            "h_ell": h_ell, "h_orth": h_orth, "nval": nval, "chain": draw(st.lists(step_s, min_size=2, max_size=8))}
+            "h_ell": h_ell, "h_orth": h_orth, "nval": nval, "chain": draw(st.lists(step_s, min_size=2, max_size=8)),
+            "form": draw(st.sampled_from(["positional", "positional", "keyword", "defaults"]))}
 
 
 def _nt(case):
@@ -251,7 +301,7 @@ def _nt(case):
 
 def _classes(case):
     out = ["prj:" + case["prj"], "ell:" + case["ell"], "start:" + case["start"], "notation:" + case["notation"],
-           "len:%d" % len(case["chain"])]
+           "len:%d" % len(case["chain"]), "call-form:" + case.get("form", "positional")]
     for k in ("h_ell", "h_orth", "nval"):
         out.append("%s:%s" % (k, "absent" if case[k] is None else ("zero" if case[k] == 0 else "value")))
     return out
